@@ -439,7 +439,7 @@ func checkC05(rc *Run) error {
 		}(w)
 	}
 	for i, c := range cases {
-		if i%nsh == shard {
+		if inShard(i, nsh, shard) {
 			jobs <- c
 		}
 	}
